@@ -337,7 +337,7 @@ func genBadDep(t *rapid.T) BadDep {
 
 var specC04Malformed = Register(&Spec[BadDep]{
 	Prop: "C04", Name: "malformed",
-	Rule: "one corruption of a valid canonical field, each its own class: closing ] ) > or } missing from a construct (at the end of input, or followed by further valid relations or alternatives whose own closers must not be borrowed); a ${substvar} followed by anything but ',' '|' or the end (a name, a second substvar, a clause); mixed negation in an arch list; a second (version) clause; a second [arch] list; an unknown operator not starting with '=' (U1: ~= != >< <> ~ ^ ...) or starting with '=' (U2: == => =<); two names separated only by blanks - optionally preceded (and where sound followed) by valid relations. Oracle: Parse returns (nil, error) and UnmarshalControl returns an error and leaves no relations in its receiver. Every case is non-trivial; distinct by text.",
+	Rule: "one corruption of a valid canonical field, each its own class: closing ] ) > or } missing from a construct (at the end of input, or followed by further valid relations or alternatives whose own closers must not be borrowed); a ${substvar} followed by anything but ',' '|' or the end (a name, a second substvar, a clause); mixed negation in an arch list; a second (version) clause; a second [arch] list; an unknown operator not starting with '=' (U1: ~= != >< <> ~ ^ ...) or starting with '=' (U2: == => =<); two names separated only by blanks - optionally preceded (and where sound followed) by valid relations. Oracle: Parse returns (nil, error) and UnmarshalControl returns an error and leaves no relations in its receiver; a fixed valid field parsed right afterwards through either entry point comes out as written. Every case is non-trivial; distinct by text.",
 	Check: func(c BadDep, r *Recorder) error {
 		r.Case(c.Text, true, "malformed:"+c.Class)
 		r.Sample(c)
@@ -355,6 +355,25 @@ var specC04Malformed = Register(&Spec[BadDep]{
 		if len(d.Relations) != 0 {
 			return errf("UnmarshalControl(%q) returned an error AND left %d relation(s) (%q) in the receiver", c.Text, len(d.Relations), d.String())
 		}
+		// a rejected field leaves nothing behind in the parser either: the next, valid field parses
+		// to what it says (both entry points, right after the two failures above)
+		const canary = "canary-pkg:any (>= 1.0~c) [amd64 !x] | ${can:ary}"
+		if dep, err := dependency.Parse("canary-pkg (>= 1.0~c) [amd64] | ${can:ary}"); err != nil || len(dep.Relations) != 1 || len(dep.Relations[0].Possibilities) != 2 ||
+			dep.Relations[0].Possibilities[0].Name != "canary-pkg" || dep.Relations[0].Possibilities[0].Version == nil || dep.Relations[0].Possibilities[0].Version.Number != "1.0~c" ||
+			dep.Relations[0].Possibilities[0].Version.Operator != ">=" || len(dep.Relations[0].Possibilities[0].Architectures.Architectures) != 1 || dep.Relations[0].Possibilities[0].Architectures.Architectures[0].CPU != "amd64" ||
+			dep.Relations[0].Possibilities[1].Name != "can:ary" || !dep.Relations[0].Possibilities[1].Substvar {
+			got := "<nil>"
+			if dep != nil {
+				got = dep.String()
+			}
+			return errf("after rejecting %q, Parse of a valid field gives %q, err %v", c.Text, got, err)
+		}
+		var d2 dependency.Dependency
+		_ = d2.UnmarshalControl(c.Text)
+		if err := d2.UnmarshalControl("canary-pkg (>= 1.0~c)"); err != nil || d2.String() != "canary-pkg (>= 1.0~c)" {
+			return errf("after rejecting %q, UnmarshalControl of a valid field gives %q, err %v", c.Text, d2.String(), err)
+		}
+		_ = canary
 		return nil
 	},
 })
